@@ -1517,6 +1517,14 @@ def _calculate_divisions(statistics, dataset_info, npartitions):
 #
 
 
+def _filter_sort_key(val):
+    """Order the members of a filter set independent of the hash seed"""
+    if isinstance(val, frozenset):
+        return 1, sorted(_filter_sort_key(v) for v in val)
+    column, op, *value = val
+    return 0, str(column), str(op), _tokenize_deterministic(value)
+
+
 class _DNF:
     """Manage filters in Disjunctive Normal Form (DNF)"""
 
@@ -1536,7 +1544,7 @@ class _DNF:
                     if hasattr(val, "to_list_tuple")
                     else _maybe_list(val)
                 )
-                for val in self
+                for val in sorted(self, key=_filter_sort_key)
             ]
 
     class _And(frozenset):
@@ -1546,7 +1554,7 @@ class _DNF:
             # DNF "and" is List[Tuple]
             return tuple(
                 val.to_list_tuple() if hasattr(val, "to_list_tuple") else val
-                for val in self
+                for val in sorted(self, key=_filter_sort_key)
             )
 
     _filters: _And | _Or | None  # Underlying filter expression
